@@ -91,9 +91,12 @@ Fixpoint convert (compact : bool) (p : particle) : option csn :=
   match p with
   | Elem m n q => Some (expand (CLeaf q) m n compact)
   | Wild m n c =>
-      match nest CChoice (any_nodes c) with
-      | Some t => Some (expand t m n compact)
-      | None => None
+      match n with
+      | Some O => None            (* traverseChoiceSequence: wasAny && getMaxOccurs() == 0 -> dropped *)
+      | _ => match nest CChoice (any_nodes c) with
+             | Some t => Some (expand t m n compact)
+             | None => None
+             end
       end
   | Seq m n ps =>
       match nest CSeq (filter_some ((fix go (ps : list particle) : list (option csn) :=
@@ -112,7 +115,8 @@ Fixpoint convert (compact : bool) (p : particle) : option csn :=
 (** does the particle produce a node at all *)
 Fixpoint has_node (p : particle) : bool :=
   match p with
-  | Elem _ _ _ | Wild _ _ _ => true
+  | Elem _ _ _ => true
+  | Wild _ n _ => match n with Some O => false | _ => true end
   | Seq _ _ ps | Choice _ _ ps => (fix go (ps : list particle) : bool :=
                                      match ps with [] => false | p :: r => has_node p || go r end) ps
   end.
@@ -239,3 +243,55 @@ Definition all_validate_cm (cm : allcm) (w : list qname) : bool :=
          end
   end.
 Definition all_validate (g : allgroup) (w : list qname) : bool := all_validate_cm (all_build g) w.
+
+(** * attribute uses: the schema-grammar path of IGXMLScanner::buildAttList / SGXMLScanner::buildAttList *)
+(** anyAttributeValidation: Any_Any / Any_Other / Any_List *)
+Definition any_attr_match (c : nsc) (x : uri) : bool :=
+  match c with
+  | NsAny => true
+  | NsNot u => negb (u =? x)%N && negb (x =? 1)%N
+  | NsSet l => existsb (fun y => (y =? x)%N) l
+  end.
+(** one provided attribute: getAttDef; when there is none, the wildcard (skip / lax: accepted; strict: the attribute
+    must be in the attribute registry of its namespace's grammar, else AttNotDefinedForElement); a found attDef with
+    defaultType Prohibited gives ProhibitedAttributePresent; a Fixed one is compared in validateAttrValue *)
+Definition m_attr_item (d : attrdecls) (declared : qname -> bool) (a : qname * list N) : bool :=
+  match find_use (fst a) (ad_uses d) with
+  | Some u =>
+      match au_use u with
+      | UProhibited => false
+      | _ => match au_vc u with VFixed v => str_eqb v (snd a) | _ => true end
+      end
+  | None =>
+      match ad_wild d with
+      | Some (c, pc) =>
+          if any_attr_match c (fst (fst a)) then
+            match pc with PcSkip | PcLax => true | PcStrict => declared (fst a) end
+          else false
+      | None => false
+      end
+  end.
+(** the loop over the attDefList after the provided attributes: Required and not provided -> RequiredAttrNotProvided;
+    Default / Fixed and not provided -> faulted in *)
+Fixpoint m_attr_defs (us : list attruse) (atts : list (qname * list N)) : bool * list (qname * list N) :=
+  match us with
+  | [] => (true, [])
+  | u :: r =>
+      let (ok, faulted) := m_attr_defs r atts in
+      match find_attr (au_name u) atts with
+      | Some _ => (ok, faulted)
+      | None =>
+          match au_use u with
+          | URequired => (false, faulted)
+          | UProhibited => (ok, faulted)
+          | UOptional => match au_vc u with
+                         | VDefault v | VFixed v => (ok, (au_name u, v) :: faulted)
+                         | VNone => (ok, faulted)
+                         end
+          end
+      end
+  end.
+Definition m_attrs_valid (d : attrdecls) (declared : qname -> bool) (atts : list (qname * list N)) : bool :=
+  forallb (m_attr_item d declared) atts && fst (m_attr_defs (ad_uses d) atts).
+Definition m_defaulted (d : attrdecls) (atts : list (qname * list N)) : list (qname * list N) :=
+  snd (m_attr_defs (ad_uses d) atts).
